@@ -196,6 +196,10 @@ def run_shard(spec):
                         observe(res, src, args, word, tag)
                 if (k // spec['parts']) % 6 == 0:
                     sweep(res, src, idioms.CAPTURE_ARGS[0], 2, tag, False)
+        for k, (tag, prog) in enumerate(list(idioms.capture_scalar_programs()) + list(idioms.narrowing_programs())):
+            if k % spec['parts'] == spec['part']:
+                for args in (idioms.NARROW_ARGS[k % 6:][:1] if spec['tier'] == 'quick' else idioms.NARROW_ARGS):
+                    observe(res, A.render(prog), args, 2 + k % 3, tag)
         for k, (tag, prog, args) in enumerate(idioms.entry_programs()):
             if k % spec['parts'] == spec['part']:
                 for word in ((2 + k % 3,) if spec['tier'] == 'quick' else (2, 3, 4)):
